@@ -19,10 +19,17 @@
    the spec); by linearity (ValuesLinear / Linear) the result must EQUAL expected + 2^-29 expectedK
    (exact in float64, not representable in float32); plus leaf values / weights of that form against
    torch.autograd.grad on a twin graph / the explicit product w^T J at 1e-12 relative.
+   HISTORIES (HIST / HVAL exports): ONE Jac object per chunk size, ONE Grad object, ONE composed Aggregate << Jac
+   and ONE chained Jac << Jac object per separating cut are applied to the 3 batches of a history (different row
+   counts, another cotangent pattern per application) in turn; ONE Init / Select / Diagonalize / Stack-of-Selects /
+   Aggregate / Aggregate << Diagonalize / Diagonalize << Init object to 3 different dictionaries (Aggregate: every
+   sequence of row counts, weights (2r-3)_r defined for every row count): application n must EQUAL the specified
+   function of input n alone (= what a freshly constructed equal transform returns).
 3. C->S: random larger programs / dictionaries are run through the real transforms, logged, and
    validated by TLC (TraceTransformValues.tla) which recomputes the expected values, compares the
    logged element types, and - in the float64 precision episodes (input v + 2^-29 K) - checks the two
-   integer parts of every result value separately.
+   integer parts of every result value separately; recorded HISTORIES of one object (Jac / Grad / Aggregate << Jac /
+   Diagonalize / Stack / Aggregate, 2..3 applications, row counts 1..4) are validated application by application.
 """
 
 from __future__ import annotations
@@ -45,14 +52,17 @@ DT = {"float64": torch.float64, "float32": torch.float32}
 
 def validate_episodes(ctx: Ctx, eps: list[dict]) -> None:
     ok_eps = []
+
+    def name(e):
+        return f"history of ONE {e['obj']} object:" if e.get("kind") == "hist" else e["kind"]
     for e in eps:
-        desc = {k: e[k] for k in ("kind", "prog", "outs", "ins", "m", "chunk", "sizes", "order", "members", "w", "dt", "prec") if k in e}
+        desc = {k: e[k] for k in ("kind", "obj", "prog", "outs", "ins", "m", "ms", "chunk", "sizes", "order", "ks", "members", "w", "dt", "prec") if k in e}
         key = "trace:" + json.dumps(desc, sort_keys=True)
         if "raised" in e:
-            ctx.violation(key + ":raised", f"{e['kind']} transform raised on a valid random input: {e['raised']} ({desc}, {e['meta']})",
+            ctx.violation(key + ":raised", f"{name(e)} transform raised on a valid random input: {e['raised']} ({desc}, {e['meta']})",
                           {"kind": "trace", "episode": e})
-        elif e.get("nonint") or _has_none(e.get("result")) or _has_none(e.get("resultK")):
-            ctx.violation(key + ":nonint", f"{e['kind']} transform returned " +
+        elif e.get("nonint") or any(k in e and _has_none(e[k]) for k in ("result", "resultK", "apps")):
+            ctx.violation(key + ":nonint", f"{name(e)} transform returned " +
                           ("values that are not of the form v + k 2^-29 on a float64 input of that form" if e.get("prec") else
                            "non-integral values on integer input") + f" ({desc}, {e['meta']})",
                           {"kind": "trace", "episode": e})
@@ -76,10 +86,11 @@ def validate_episodes(ctx: Ctx, eps: list[dict]) -> None:
         e = by[rj["ep"]]
         if rj["clause"] == "malformed_program_in_log":
             raise MachineryError(f"driver logged a malformed program: {e['prog']}")
-        desc = {k: e[k] for k in ("kind", "prog", "outs", "ins", "m", "chunk", "sizes", "order", "members", "w", "dt", "prec") if k in e}
+        desc = {k: e[k] for k in ("kind", "obj", "prog", "outs", "ins", "m", "ms", "chunk", "sizes", "order", "ks", "members", "w", "dt", "prec") if k in e}
         ctx.violation("trace:" + json.dumps(desc, sort_keys=True) + ":" + rj["clause"],
-                      f"recorded application of the real {e['kind']} transform rejected by TransformValues.tla ({rj['clause']}): "
-                      f"{desc} input={e.get('ct', e.get('input'))} result={e.get('result')} result element types={e.get('rdt')} "
+                      f"recorded application of the real {name(e)} transform rejected by TransformValues.tla ({rj['clause']}): "
+                      f"{desc} " + (f"applications (input, result, element types) = {e['apps']} " if e.get("kind") == "hist" else
+                                    f"input={e.get('ct', e.get('input'))} result={e.get('result')} result element types={e.get('rdt')} ")
                       + (f"2^-29 parts: input {e.get('ctK') or e.get('inputK') or e.get('membersK')} result {e.get('resultK')} " if e.get("prec") else "")
                       + f"shapes={e['meta']}",
                       {"kind": "trace", "episode": e})
@@ -99,7 +110,9 @@ def _has_none(x) -> bool:
 
 def run(ctx: Ctx, replay: str | None) -> None:
     ctx.rule = ("one case = (program, outputs, inputs, batch size) for Grad/Jac or (transform, key sizes, key order / member key "
-                "sets / row count) for Init/Select/Diagonalize/Stack/Aggregate, exported by TLC with the expected dictionaries; each "
+                "sets / row count) for Init/Select/Diagonalize/Stack/Aggregate, or a HISTORY (the sequence of batches / dictionaries ONE "
+                "transform object or composition is applied to; every history is non-trivial: application >= 2 sees an object that "
+                "was used before), exported by TLC with the expected dictionaries; each "
                 "replayed under several tensor-shape assignments, dtypes and insertion orders; distinct by content; non-trivial = "
                 ">= 2 outputs or >= 2 inputs/keys or >= 2 rows (layout, pairing and row order are then observable)")
     ctx.assumptions += [
@@ -111,6 +124,8 @@ def run(ctx: Ctx, replay: str | None) -> None:
         "<= 20 operations is below 1e-14, a float32 round trip is about 1e-8",
         "Aggregate(key_order=<one-shot iterable>) raises ValueError on the unchanged tree (key_order is traversed three times): "
         "key_order is presented as list / tuple / dict view only; member lists of Stack are Sequences (list / tuple)",
+        "histories: Grad / Jac objects are constructed with retain_graph=True (a second application of an object that freed the "
+        "graph is outside the universe); the aggregator of a history is the harness's w(m) = (2r-3)_r, defined for every row count",
         "an EMPTY batch of cotangents (0 rows) is outside the universe (not reachable through the API); it is executed and counted only",
         "the order in which Aggregate concatenates the per-key matrices is not fixed by the statement (any key order accepted, DRIFT noted)",
     ]
@@ -126,6 +141,10 @@ def run(ctx: Ctx, replay: str | None) -> None:
             r = H.replay_call((p["scenario"], p["menu"], p["seed"], p["idx"], p["n_shapes"], [DT[d] for d in p["dtypes"]]))
         elif p["kind"] == "value":
             r = H.replay_value((p["scenario"], p["menu"], p["seed"], p["idx"], p["limit"], [DT[d] for d in p["dtypes"]]))
+        elif p["kind"] == "histcall":
+            r = H.replay_hist_call((p["scenario"], p["menu"], p["seed"], p["idx"], p["every_chunk"], DT[p["dtype"]]))
+        elif p["kind"] == "histvalue":
+            r = H.replay_hist_value((p["scenario"], p["menu"], p["seed"], p["idx"], p["limit"], [DT[d] for d in p["dtypes"]]))
         else:
             validate_episodes(ctx, [{"dt": "float64", "rdt": [], "prec": 0} | p["episode"] | {"ep": 1}])
             return
@@ -135,19 +154,22 @@ def run(ctx: Ctx, replay: str | None) -> None:
 
     cfg = (SPEC_DIR / "MC_TransformValues_quick.cfg").read_text()
     if quick:
-        cmod, vmod = 12, 4
+        cmod, vmod, hmod = 12, 4, 16
     else:
-        cmod, vmod = 36, 1
+        cmod, vmod, hmod = 36, 1, 4
         cfg = (cfg.replace("MaxIns = 2", "MaxIns = 3").replace("Thin = TRUE", "Thin = FALSE")
                .replace("LeafIdx = {1, 2, 4, 5}", "LeafIdx = {1, 2, 3, 4, 5, 6}"))
     cfg = (cfg.replace("SampleMod = 5", f"SampleMod = {cmod}").replace("SamplePick = 0", f"SamplePick = {ctx.seed % cmod}")
-           .replace("ValMod = 4", f"ValMod = {vmod}").replace("ValPick = 0", f"ValPick = {ctx.seed % vmod}"))
+           .replace("ValMod = 4", f"ValMod = {vmod}").replace("ValPick = 0", f"ValPick = {ctx.seed % vmod}")
+           .replace("HistMod = 16", f"HistMod = {hmod}").replace("HistPick = 0", f"HistPick = {ctx.seed % (4 * hmod)}"))
     res = run_tlc("TransformValues", cfg_text=cfg, workers="auto", seed=ctx.seed, timeout=3000)
     ctx.add_tlc(res)
     if res.violated:
         raise MachineryError(f"TransformValues.tla: {res.violated} violated in the model\n{res.cex[:2000]}")
     calls = res.prints.get("CALL", [])
     vals = res.prints.get("VAL", [])
+    hists = res.prints.get("HIST", [])
+    hvals = res.prints.get("HVAL", [])
     menu = (res.prints.get("MENU") or [{}])[0].get("menu")
     forms = (res.prints.get("MENU") or [{}])[0].get("forms")
     if not menu or len(calls) < 500 or len(vals) < 300:
@@ -162,9 +184,18 @@ def run(ctx: Ctx, replay: str | None) -> None:
     if kinds != {"init", "select", "diag", "stack", "agg"} or not any(c["cuts"] for c in calls) or \
             not any(c["unreachable"] for c in calls) or not any(len(c["outs"]) > 1 for c in calls):
         raise MachineryError(f"vacuous export: kinds={kinds}")
+    hobjs = {v["obj"] for v in hvals}
+    if len(hists) < 150 or len(hvals) < 200 or hobjs != {"init", "select", "diag", "diaginit", "agg", "stack", "aggdiag"} or \
+            not all(len(h["apps"]) == 3 and [a["m"] for a in h["apps"]] == h["ms"] for h in hists) or \
+            sum(1 for h in hists if len(set(h["ms"])) > 1) < 100 or not any(h["cuts"] for h in hists) or \
+            sum(1 for v in hvals if v["obj"] == "agg" and len({a["m"] for a in v["apps"]}) > 1) < 20 or \
+            any(len(v["apps"]) < 2 for v in hvals):
+        raise MachineryError(f"vacuous export of histories: {len(hists)} call histories, {len(hvals)} value histories over {hobjs}")
     ctx.exhaustive = False
     ctx.extra["model_exhaustive_within_bounds"] = True
-    ctx.extra["replayed_fraction"] = {"calls": f"1/{cmod} (content hash)", "value_scenarios": f"1/{vmod} (content hash)"}
+    ctx.extra["replayed_fraction"] = {"calls": f"1/{cmod} (content hash)", "value_scenarios": f"1/{vmod} (content hash)",
+                                       "call_histories": f"the calls of 1/{3 * cmod}, " + ("one row-count sequence each" if quick else "every row-count sequence"),
+                                       "value_histories": f"1/{hmod} (Aggregate 1/{4 * hmod}, Init/Select/Diagonalize 1/{max(1, hmod // 4)})"}
 
     n_shapes = 1 if quick else 2
     # quick: float64 and float32 alternate over the scenarios; thorough: both on every scenario
@@ -201,6 +232,30 @@ def run(ctx: Ctx, replay: str | None) -> None:
         for f in r["fails"]:
             ctx.violation("value:" + H.value_key(v), f, {"kind": "value", "scenario": v, "menu": menu, "seed": ctx.seed, "idx": i,
                                                           "limit": limit, "dtypes": [str(d)[6:] for d in dts(i)], "forms": forms})
+    # histories of one object
+    items = [(h, menu, ctx.seed, i, not quick, dtypes[(i + ctx.seed) % 2]) for i, h in enumerate(hists)]
+    for (h, _, _, i, every, dt), r in zip(items, pmap(H.replay_hist_call, items, chunksize=32)):
+        ctx.evaluations += r["evals"]
+        ctx.traces += 1
+        ctx.nontrivial(("histcall", H.hist_call_key(h)))
+        for f in r["fails"]:
+            ctx.violation("histcall:" + H.hist_call_key(h), f"program {h['prog']}: {f}",
+                          {"kind": "histcall", "scenario": h, "menu": menu, "seed": ctx.seed, "idx": i, "every_chunk": every,
+                           "dtype": str(dt)[6:], "forms": forms})
+    hlimit = 2 if quick else 8
+    items = [(v, menu, ctx.seed, i, hlimit, dts(i)) for i, v in enumerate(hvals)]
+    for (v, _, _, i, _, _), r in zip(items, pmap(H.replay_hist_value, items, chunksize=16)):
+        ctx.evaluations += r["evals"]
+        ctx.traces += 1
+        ctx.nontrivial(("histvalue", H.hist_value_key(v)))
+        for f in r["fails"]:
+            ctx.violation("histvalue:" + H.hist_value_key(v), f, {"kind": "histvalue", "scenario": v, "menu": menu, "seed": ctx.seed, "idx": i,
+                                                                  "limit": hlimit, "dtypes": [str(d)[6:] for d in dts(i)], "forms": forms})
+    ctx.count("call_histories_replayed", len(hists))
+    ctx.count("value_histories_replayed", len(hvals))
+    h = next(x for x in hists if len(set(x["ms"])) == 3)
+    ctx.sample({"call_history": {k: h[k] for k in ("prog", "outs", "ins", "ms", "apps")}})
+    ctx.sample({"value_history": next(x for x in hvals if x["obj"] == "agg" and len(x["sizes"]) >= 2)})
     for kind in ("diag", "agg", "stack"):
         v = next(x for x in vals if x["kind"] == kind and len(x["sizes"]) >= 2)
         ctx.sample({"value_scenario": v})
@@ -217,6 +272,14 @@ def run(ctx: Ctx, replay: str | None) -> None:
         e = H.record_jac_episode(rng, len(eps) + 1, menu) if tries % 3 else H.record_value_episode(rng, len(eps) + 1, menu)
         if e is not None:
             eps.append(e)
-    ctx.evaluations += len(eps)
+    nh = 90 if quick else 900
+    tries = 0
+    while len(eps) < n + nh and tries < 20 * nh:
+        tries += 1
+        e = H.record_hist_episode(rng, len(eps) + 1, menu)
+        if e is not None:
+            eps.append(e)
+    ctx.count("recorded_histories_of_one_object", sum(1 for e in eps if e["kind"] == "hist"))
+    ctx.evaluations += len(eps) + sum(len(e.get("apps", [])) for e in eps)
     validate_episodes(ctx, eps)
     ctx.sample({"trace_episode": {k: v for k, v in eps[0].items() if k != "meta"}})
